@@ -793,11 +793,11 @@ func (u *Unit) anchorInRegion(anchor string, nodes []ast.Node) bool {
 		ast.Inspect(n, func(n ast.Node) bool {
 			switch x := n.(type) {
 			case *ast.SendStmt:
-				if anchor == "send:"+exprText(x.Chan) {
+				if anchor == "send:"+exprText(x.Chan) || anchor == u.stableText("send:"+exprText(x.Chan)) {
 					found = true
 				}
 			case *ast.UnaryExpr:
-				if x.Op == token.ARROW && anchor == "recv:"+exprText(x.X) {
+				if x.Op == token.ARROW && (anchor == "recv:"+exprText(x.X) || anchor == u.stableText("recv:"+exprText(x.X))) {
 					found = true
 				}
 			case *ast.ReturnStmt:
